@@ -553,10 +553,21 @@ TouchingPolys(e) ==
   \E k, m \in 1..Len(e.tree) : k # m /\
      \E i \in 1..Len(e.tree[k].poly) : ~FarClosedPath(e.tree[k].poly[i], e.tree[m].poly, Band4)
 
+\* ... and every node really lies inside the parent it was given (vertices within the band, interior probes
+\* inside): the finding is about WHICH of several containing polygons becomes the parent (levels, IsHole,
+\* innermost container, siblings), never about a polygon attached to something that does not contain it
+ContainedInParents(e) ==
+  LET T == e.tree  polys == [k \in 1..Len(e.tree) |-> e.tree[k].poly] IN
+  /\ \A k \in 1..Len(T) : T[k].parent # 0 =>
+       \A i \in 1..Len(T[k].poly) : InOrNear(T[T[k].parent].poly, T[k].poly[i])
+  /\ \A n \in 1..Len(e.probes) :
+       FarClosed(e.probes[n], polys, Band4) =>
+         \A k \in 1..Len(T) : (T[k].parent # 0 /\ WnPath(e.probes[n], T[k].poly) # 0) => WnPath(e.probes[n], T[T[k].parent].poly) # 0
+
 TreeOpOK(e, idx) ==
   /\ Chk("OUT", idx, OutOK(e))
   /\ Has(e, "ARGS") => Chk("ARGS", idx, e.argsSame)
-  /\ Has(e, "C04") => ChkF("C04", idx, C04OK(e), "tree-touching", Len(e.tree) = Len(e.flat) /\ TouchingPolys(e))
+  /\ Has(e, "C04") => ChkF("C04", idx, C04OK(e), "tree-touching", Len(e.tree) = Len(e.flat) /\ TouchingPolys(e) /\ ContainedInParents(e))
 
 (***************************************************************************)
 (* Open subject paths (C09).  All coordinates of the observation are in    *)
